@@ -7,6 +7,7 @@ import (
 	"fmt"
 	"net"
 	"os"
+	"strings"
 	"syscall"
 	"time"
 
@@ -127,3 +128,36 @@ func (s *Sock) DrainFrom() (out [][]byte, from []string) {
 }
 
 func (s *Sock) Close() { _ = s.Conn.Close() }
+
+// RxQueue returns the octets accounted to the receive queue of the UDP socket bound to a (from /proc/net/udp;
+// -1 if the socket is not listed). It grows with every datagram delivered and not yet read.
+func RxQueue(a *net.UDPAddr) int {
+	if a == nil {
+		return -1
+	}
+	b, err := os.ReadFile("/proc/net/udp")
+	if err != nil {
+		return -1
+	}
+	ip := a.IP.To4()
+	if ip == nil {
+		return -1
+	}
+	want := fmt.Sprintf("%02X%02X%02X%02X:%04X", ip[3], ip[2], ip[1], ip[0], a.Port)
+	for _, l := range strings.Split(string(b), "\n") {
+		f := strings.Fields(l)
+		if len(f) < 5 || f[1] != want {
+			continue
+		}
+		q := strings.Split(f[4], ":")
+		if len(q) != 2 {
+			return -1
+		}
+		var n int64
+		if _, err := fmt.Sscanf(q[1], "%X", &n); err != nil {
+			return -1
+		}
+		return int(n)
+	}
+	return -1
+}
